@@ -434,6 +434,11 @@ def prove(assumptions, goal, timeout_s=10, opts=None, rounds=2):
                     return Verdict(PROVED, "z3-5.1(products-as-uninterpreted-functions)", (time.time() - t0) * 1000)
         except z3.Z3Exception:  # pragma: no cover
             pass
+        if (opts or {}).get("abstract_only"):
+            # the caller states that the goal is only expected to follow by linear arithmetic + congruence + Σ-extensionality:
+            # when that attempt does not close it, give up at once (UNDECIDED, never a verdict) and let the replay decide
+            return Verdict(UNDECIDED, "z3-5.1(products-as-uninterpreted-functions)", (time.time() - t0) * 1000,
+                           reason="not established with products as uninterpreted functions (abstract_only)")
     res, model, backend, ms = check_formulas(formulas, timeout_s)
     if res == "unsat":
         return Verdict(PROVED, backend, ms)
